@@ -51,6 +51,11 @@ CLAIMED = {
   "CueRewrite.tla models a package (two files, declarations of a b c, conjunct lists from a 26-entry pool incl. defaults, closed structs, a definition, patterns, lists, sibling references) and the rewrites the property names (swap declarations, swap/regroup/duplicate conjuncts, & _, sole embedding, split/merge same-label declarations, move between files, swap files) as actions; TLC checks the rewrites conserve the (label, conjunct) pairs and enumerates every state reachable in <= 2 (quick) / 3 (thorough) rewrites from 7 fixed and a seeded sample of random seed programs. Each state is rendered as a multi-file package and evaluated; per field the projection (error class, kind, concrete scalar, fields and their kinds, closedness, default, concreteness, and acceptance of 26 probes unified in-language at the field and its x / y children) must equal the seed's. Three genuine order dependences found on the unchanged tree are recorded as known findings.",
   "trusted: TLC, the projection (guarded by a canary: an altered program must project differently). Random seeds in which an erroneous field is referenced from another field are skipped (known finding class). Comprehensions, dynamic fields, builtins and imports are not in the pool.",
   "DESIGN.md §3 C01"),
+ "C15": ("model_checking",
+  "TLA+ model of the module-zip rules (ModZip.tla: per-entry verdict valid/omitted/invalid for file-list and zip checking), checked by TLC; every archive state materialised and run through CheckFiles, CheckDir, CheckZip, Create and Unzip, with hostile zip headers",
+  "ModZip.tla assigns each of 26 entries (one path per rule of the package documentation / CheckFilePath: dot-dot, absolute, backslash, trailing dot, reserved names, invalid UTF-8, cue.mod case variants, nested module, local-module file, licence, hg archival file, file-and-directory, case collision, symlink, oversize) its verdict in the context of an archive and checks that a created zip is acceptable and where the checkers may differ. Every subset of <= 3 (thorough 4) entries is checked as a file list, as a directory when representable (must agree with the file list), created + CheckZip + Unzip (round trip reproduces exactly the valid files), and written raw as a zip, also with lying declared sizes, a directory entry and a duplicate name; every Unzip runs in a scratch directory that is walked afterwards: nothing outside the target, only regular files, never more bytes than declared.",
+  "trusted: TLC, the transcription of the documentation; for a colliding pair only 'at least one rejected' is claimed; a zip entry carrying symlink mode bits may be accepted or rejected (the documentation and the extraction behaviour differ), extraction safety is checked independently. Canary (flipped archive verdict) must be noticed.",
+  "DESIGN.md §3 C15"),
 }
 
 NOT_YET = "check not built yet in this round (see DESIGN.md §8 for the order of construction)"
